@@ -13,6 +13,9 @@ int
 main(void)
 {
         __CPROVER_havoc_object(&st);
+        /* the function-pointer table of the manager is the one the variant's own init installs (some cells dispatch through it) */
+        st.features = ~(uint64_t) 0;
+        INIT_FN(&st, 0);
         __CPROVER_havoc_object(&job);
         job.cipher_mode = (IMB_CIPHER_MODE) cfg_mode;
         job.key_len_in_bytes = (uint64_t) cfg_key;
